@@ -116,8 +116,8 @@ Same(i, res, why) == Out(i, htlc, sub, timer, setOwner, res, why, NoMsgs)
 (* The invoice a reference resolves to (0 = ErrInvoiceNotFound /           *)
 (* ErrInvRefEquivocation), as the KV store does it.  The SQL store differs *)
 (* in one case, modelled in RefSQLDiffers: hash known, address given,      *)
-(* address owned by nobody - KV falls back to the hash (the HTLC then      *)
-(* fails with "payment address mismatch" or whatever updateMpp finds       *)
+(* address indexed for no invoice - KV falls back to the hash (the HTLC    *)
+(* then fails with "payment address mismatch" or whatever updateMpp finds  *)
 (* first), SQL reports equivocation ("invoice not found").                 *)
 (***************************************************************************)
 ByHash(i, p) == IF p.h # 0 /\ i[p.h].ex THEN p.h ELSE 0
@@ -128,7 +128,7 @@ Target(i, p) ==
                          THEN (IF ByHash(i, p) = ByAddr(i, p) THEN ByHash(i, p) ELSE 0)
                          ELSE ByHash(i, p)
     [] p.pl = "amp" -> ByAddr(i, p)
-RefSQLDiffers(i, p) == p.pl = "mpp" /\ ByHash(i, p) # 0 /\ ByAddr(i, p) = 0 /\ p.ad # ByHash(i, p)
+RefSQLDiffers(i, p) == p.pl = "mpp" /\ ByHash(i, p) # 0 /\ ByAddr(i, p) = 0
 
 ExpSoon(p, k) == p.exp < height + RejectDelta \/ p.exp < height + Delta(k)
 
@@ -167,7 +167,7 @@ Mpp(i, p, k) ==          \* updateMpp
   IN
   IF IsAmp(k) # (p.pl = "amp") THEN Fail(WType)
   ELSE IF i[k].st # "open" THEN Fail(WNotOpen)
-  ELSE IF p.ad # k THEN Fail(WAddr)
+  ELSE IF p.ad # k \/ ~HasAddr(k) THEN Fail(WAddr)       \* (a keysend invoice has the blank address)
   ELSE IF p.tot = 0 \/ p.tot < i[k].val THEN Fail(WTotLow)
   ELSE IF \E d \in S : htlc[d].tot # p.tot THEN Fail(WTotMismatch)
   ELSE IF ExpSoon(p, k) THEN Fail(WExpiry)
